@@ -248,6 +248,10 @@ func runC19(t *testing.T, sci interface{}, keepLog bool) *hx.Outcome {
 					}
 					if err != nil && !strings.Contains(err.Error(), "not.exist") {
 						touch(judged)
+						// the attempt counts against the record it was presented to, judged or not
+						if jr := recs[judged]; jr != nil {
+							jr.attempts++
+						}
 					}
 				}
 				continue
